@@ -3,7 +3,7 @@
    check_case: the model computes what the implementation did.
    spec_case : what the implementation did satisfies the property, judged on the
                observations alone (no model involved). *)
-From Sdns Require Export Common.Base Gen.C11 C11.Model.
+From Sdns Require Export Common.Base Gen.C11 C11.Model C11.Stream C11.Regroup.
 
 (* ---- observations ---- *)
 (* writer: per op, return class (0 nil, 1 errAlreadyWritten, 2 other error), Written() after
@@ -45,7 +45,17 @@ Inductive case :=
 | CaseLab (qt_ms : N) (obs : list lobs) (goroutines_left : N) (slots_held_ms : N)
   (* LazyDeadline under a virtual clock: deadline offset (ms), operations, per-op observation
      (Err / EffectiveError: 0 nil 1 DeadlineExceeded 2 Canceled; Done: 1 closed) *)
-| CaseLazy (deadline : Z) (ops : list lzop) (obs : list N).
+| CaseLazy (deadline : Z) (ops : list lzop) (obs : list N)
+  (* TCP stream path under a virtual clock: query timeout (ms), the announced frames, the
+     client's script; observed: the connection's SetDeadline / Write / Close log, per frame
+     whether the chain was entered and how many reply frames carrying its ID were written *)
+| CaseTcp (qt : Z) (frames : list tframe) (conn : tconn) (obs : list tev)
+          (entered : list bool) (replies : list N)
+  (* Resolver.groupLookup under a virtual clock: callers of one key (arrival, instant their
+     own context ends, how), the timed history, per caller: return instant, class (0 answer,
+     1 own context error, 2 a request-local error while its own context was alive, 3 other,
+     9 never returned), kind of the error (1 deadline, 2 cancellation) *)
+| CaseRegroup (cs : list gcaller) (evs : list gtev) (obs : list gobs).
 
 (* ---- helpers ---- *)
 Definition ret_code (r : wret) : N := match r with ROk => 0 | RAlready => 1 | RErr => 2 end%N.
@@ -313,6 +323,13 @@ Definition check_case (c : case) : bool :=
                              end%N
                         else true) obs
   | CaseLazy deadline ops obs => list_eqb N.eqb (snd (lz_run (lz_init deadline) ops)) obs
+  | CaseTcp qt frames conn obs entered replies =>
+      let m := run_conn qt frames conn in
+      list_eqb tev_eqb m obs &&
+      list_eqb N.eqb (map (fun i => N.of_nat (count_id (S i) (written_ids m))) (seq 0 (length frames))) replies
+  | CaseRegroup cs evs obs =>
+      let s := fold_left gtstep evs (g0 (length cs)) in
+      list_eqb gobs_eqb (map (expected cs s) (seq 0 (length cs))) obs
   end.
 
 Definition spec_case (c : case) : bool :=
@@ -355,4 +372,24 @@ Definition spec_case (c : case) : bool :=
       (* the limiter is quiescent once the clients are answered (one query budget of slack) *)
       (slots <=? qt)%N
   | CaseLazy deadline ops obs => lazy_spec deadline 0 false 0 ops obs
+  | CaseTcp qt frames conn obs entered replies =>
+      (* every write is issued under an armed bound that has not passed; a frame gets at most
+         one reply; a frame that entered the chain gets exactly one unless the client itself
+         stopped reading; the per-frame counts are the ones of the connection log *)
+      forallb live_write obs &&
+      (length entered =? length frames)%nat && (length replies =? length frames)%nat &&
+      forallb (fun n => (n <=? 1)%N) replies &&
+      forallb (fun p => if (fst p : bool) && (tc_stall conn <? 0)%Z then (snd p =? 1)%N else true) (combine entered replies) &&
+      list_eqb N.eqb (map (fun i => N.of_nat (count_id (S i) (written_ids obs))) (seq 0 (length frames))) replies
+  | CaseRegroup cs evs obs =>
+      (* every caller returns; nobody is failed with another request's error; a caller that
+         fails does so exactly when its own context ends - not earlier (others' expiries), not
+         later; an answer arrives while its own context is alive *)
+      (length cs =? length obs)%nat &&
+      forallb (fun p => let '(c, o) := p in
+                 match go_class o with
+                 | 0 => (gc_arrive c <=? go_ret o)%Z && (go_ret o <? gc_end c)%Z
+                 | 1 => (go_ret o =? gc_end c)%Z && (go_ekind o =? gc_kind c)%N
+                 | _ => false
+                 end%N) (combine cs obs)
   end.
